@@ -49,14 +49,30 @@ def run(report: Report, tier, seed):
         "A1 L-frag (meta-lemma, not mechanised): if every __teal__ satisfies the fragment contract, the composed graph has the composed semantics",
         "parametricity: a construct observes its children only through type_of / has_return / __teal__ (opaque proxies; class-dependent branches are enumerated as separate scenarios)",
         "control domain enumerated, not symbolic: child types x has_return x pending exits (0..2) x listed versions x modes; operator arities 2,3,5 for N-ary constructs",
-        "NormalizeBlocks, sortBlocks, flattenBlocks, deferred-expression splice: covered here only by the bounded stand-in")
+        "flattenBlocks is under a pyvc contract (requires wf_blocks: what sortBlocks returns); L-flat (per-block lowering => trace equivalence of graph and list) is a meta-lemma",
+        "NormalizeBlocks, sortBlocks, deferred-expression splice: covered here only by bounded stand-ins")
     run_fragcheck(report, "O1.frag", tier=tier)
+    run_contracts(report, [("contracts.c01_flatten", "FlattenBlocks", "O1.26")])
+    from . import ir_native
+    nmax = 3 if tier == "quick" else 4
+    fc, ff = ir_native.check_flatten(nmax)
+    sc, sf = ir_native.check_sort(nmax)
+    report.bounded.append(Bounded(function="pyteal.compiler.flatten.flattenBlocks", contract="from every block and condition class control reaches exactly the graph successor; labels unique and defined",
+                                  bound=f"all block lists of <= {nmax} blocks (terminal / simple / conditional, every successor assignment)", cases=fc, distinct_nontrivial=fc, failures=len(ff)))
+    report.bounded.append(Bounded(function="pyteal.compiler.sort.sortBlocks", contract="duplicate-free enumeration of the reachable blocks ending with `end`; TealInternalError iff end unreachable",
+                                  bound=f"all graphs of <= {nmax} blocks x every terminal end block", cases=sc, distinct_nontrivial=sc, failures=len(sf)))
     fails = bounded(report, tier, seed)
 
     def search(fn, obs):
+        if "flattenBlocks" in fn:
+            return {"input": {"block_list": ff[0]}, "what": ff[0]["what"]} if ff else None
         return fails[0] if fails else None
 
+    report.settle_undecided(search)
     report.settle_refuted(search)
+    for name, lst in (("flattenBlocks", ff), ("sortBlocks", sf)):
+        if lst and not any(name in v.what for v in report.violations):
+            report.violation(Violation(key=f"ir:{name}:{lst[0]['kinds']}:{lst[0]['succ']}", what=f"{name}: {lst[0]['what']}", replay={"input": {"block_list": lst[0]}}, confirmed_native=True))
     if fails and not any(o.status == "refuted" for o in report.obs):
         f = fails[0]
         report.violation(Violation(key=f"bounded:{f['input']['spec']['seed']}:{f['input']['spec']['version']}",
